@@ -42,7 +42,9 @@ NormQ(q) == [distinct |-> q.distinct, star |-> q.star, proj |-> IF q.star THEN <
              p |-> NormP(q.p), group |-> q.group, order |-> q.order, limit |-> q.limit]
 
 NormU(op) == [form |-> op.form, del |-> op.del, ins |-> op.ins,
-              where |-> IF op.form \in {"insert_data", "delete_data"} THEN [t |-> "unit"] ELSE NormP(op.where)]
+              \* DELETE WHERE has one block: its pattern is derived from the template, not written (the parser derives one GRAPH
+              \* block per quad, the generator one per run of quads of the same graph - the same pattern); only the template is compared
+              where |-> IF op.form \in {"insert_data", "delete_data", "delete_where_short"} THEN [t |-> "unit"] ELSE NormP(op.where)]
 
 SameTree(e) ==
   /\ e.kind = e.case.kind
